@@ -184,6 +184,16 @@ CHECKS["C06"] = ("kv", "exploration",
     "that returns an error is 'not accepted' and only counted. The concurrency clause is covered by a thorough-tier race-detector stress test whose mismatches count only if reproduced sequentially.",
     "DESIGN.md 4/C06")
 
+CHECKS["C16"] = ("bytes", "exploration",
+    "structured byte / CBOR mutation with the oracle inside each target (rapid, quick) + native coverage-guided fuzzing (thorough)",
+    "57 decode / verify entry points (CBOR decoding of transactions, all method bodies, descriptors, commitments, proofs, write logs, checkpoint metadata; runtime host frames; tree node and key decoders; proof "
+    "verification; checkpoint chunk restore against a restore in progress; PCS quotes and collateral, IAS AVRs; descriptor verification functions, also in attacker-signed variants) receive generated mutations of "
+    "valid encodings and hostile constants. Inside each target: no panic, bounded time and allocation (re-run 3x before it counts), decode->encode->decode consistency, depth/policy markers, and an identical "
+    "result for a known-good input afterwards. The thorough tier adds native Go fuzzing (coverage instrumented) of 7 grouped targets. One accepted-but-inconsistent decoding (namespace in array form) was found, "
+    "shown to halt the chain on the live multiplexer, and repaired.",
+    "Inputs up to 64 KiB; time/memory limits are thresholds, not proofs. The live multiplexer's CheckTx/DeliverTx with arbitrary bytes is exercised by C10's hostile generator instead.",
+    "DESIGN.md 3.3, 4/C16")
+
 NOT_APPLICABLE = {
 }
 
